@@ -181,11 +181,11 @@ def run(chk: common.Check):
             if math.dist(a[2], b[2]) < 2.5:
                 ss.append((a, b))
     nslide = 0
-    for (a, b) in ss[: (3 if chk.thorough else 1)]:
+    for (a, b) in ss[: (2 if chk.thorough else 1)]:
         u = [b[2][i] - a[2][i] for i in range(3)]
         for tgt in ([1, 0, 0], [0, 1, 0], [0, 0, 1]) if chk.thorough else ([1, 0, 0],):
             posed = pose_float(base, align(u, tgt))
-            nslide += bond_slide(chk, found, posed, f"3SGB-subset, S-S {a[0]}{a[1]}-{b[0]}{b[1]} along {tgt}", 450 if chk.thorough else 260)
+            nslide += bond_slide(chk, found, posed, f"3SGB-subset, S-S {a[0]}{a[1]}-{b[0]}{b[1]} along {tgt}", 300 if chk.thorough else 260)
     nslide += bond_slide(chk, found, base, "3SGB-subset as deposited", 300 if chk.thorough else 60)
     chk.cov["bond_perception_poses"] = nslide
 
